@@ -343,3 +343,70 @@ theorem C12_not_synchronized_iff (s s' : P2P) (now : Nat) (r : Except GgrsError 
   exact ⟨this.2.symm, this.1.symm⟩
 
 end Ggrs.P2P
+
+namespace Ggrs.Endpoint
+
+/-- **C12, keep-alive: something is sent at least every `KEEP_ALIVE_INTERVAL`.** After the periodic part
+of any poll of a Running endpoint at time `now`, the endpoint's last send lies at most
+`KEEP_ALIVE_INTERVAL` back: if it did not, this very poll queues a `KeepAlive` (or a quality report)
+stamped `now`. So an endpoint polled every `g` µs puts a packet on the wire at least every
+`KEEP_ALIVE_INTERVAL + g`. -/
+theorem C12_keepalive_sent (e : Endpoint) (now : Nat) :
+    now ≤ (e.periodicReports now).lastSendTime + ms KEEP_ALIVE_INTERVAL ∧
+    ((e.periodicReports now).lastSendTime = e.lastSendTime ∨
+      ((e.periodicReports now).lastSendTime = now ∧ (e.periodicReports now).sendQueue.length > e.sendQueue.length)) := by
+  unfold periodicReports
+  simp only
+  by_cases hq : e.runningLastQualityReport + ms QUALITY_REPORT_INTERVAL < now
+  · simp only [hq, if_true]
+    have h1 : (e.sendQualityReport now).lastSendTime = now := by unfold sendQualityReport queueMessage; rfl
+    have h2 : (e.sendQualityReport now).sendQueue.length = e.sendQueue.length + 1 := by
+      unfold sendQualityReport queueMessage; simp
+    by_cases hk : (e.sendQualityReport now).lastSendTime + ms KEEP_ALIVE_INTERVAL < now
+    · rw [h1] at hk; omega
+    · rw [if_neg hk]
+      exact ⟨by rw [h1]; omega, Or.inr ⟨h1, by rw [h2]; omega⟩⟩
+  · simp only [hq, if_false]
+    by_cases hk : e.lastSendTime + ms KEEP_ALIVE_INTERVAL < now
+    · rw [if_pos hk]
+      refine ⟨?_, Or.inr ⟨rfl, ?_⟩⟩
+      · show now ≤ now + _; omega
+      · unfold queueMessage; simp
+    · rw [if_neg hk]
+      exact ⟨by omega, Or.inl rfl⟩
+
+/-- **C12, no interruption while the peer is heard.** A poll at time `now` raises neither
+`NetworkInterrupted` nor `Disconnected` if a packet of the peer was handled within the last
+`disconnect_notify_start` (and the notify delay is not longer than the timeout): the timers only
+fire on silence. -/
+theorem C12_no_interrupt_while_heard (e : Endpoint) (now : Nat)
+    (hle : e.disconnectNotifyStart ≤ e.disconnectTimeout)
+    (hheard : now ≤ e.lastRecvTime + e.disconnectNotifyStart) :
+    (e.checkTimeouts now).eventQueue = e.eventQueue ∧
+    (e.checkTimeouts now).disconnectNotifySent = e.disconnectNotifySent ∧
+    (e.checkTimeouts now).disconnectEventSent = e.disconnectEventSent := by
+  unfold checkTimeouts
+  have h1 : ¬ e.lastRecvTime + e.disconnectNotifyStart < now := by omega
+  have h2 : ¬ e.lastRecvTime + e.disconnectTimeout < now := by omega
+  simp [h1, h2]
+
+/-- Handling any packet that passes the magic filter restarts the silence timer. -/
+theorem C12_heard_restarts_timer (e : Endpoint) (now : Nat) : (e.noteReceived now).lastRecvTime = now := by
+  unfold noteReceived
+  simp only
+  split <;> rfl
+
+/-- **C12, the keep-alive arithmetic for the defaults.** Two connected sessions that merely poll, each
+at least every `g` µs, over a link with one-way latency at most `l` µs: the sender emits at least
+every `KEEP_ALIVE_INTERVAL + g` (`C12_keepalive_sent`), the packet is handled by the receiver's
+first poll after its arrival, i.e. within `l + g`, so the receiver's silence never exceeds
+`KEEP_ALIVE_INTERVAL + 2 g + l`; whenever that is at most the notify delay no interruption is ever
+raised (`C12_no_interrupt_while_heard`). For the default notify delay of 500 ms this allows, e.g.,
+polling every 100 ms over a link with 100 ms latency — or 60 fps polling with 250 ms latency. -/
+theorem C12_keepalive_defaults :
+    ms KEEP_ALIVE_INTERVAL + 2 * 100000 + 100000 ≤ ms DEFAULT_DISCONNECT_NOTIFY_START ∧
+    ms KEEP_ALIVE_INTERVAL + 2 * 16667 + 250000 ≤ ms DEFAULT_DISCONNECT_NOTIFY_START := by
+  decide
+
+end Ggrs.Endpoint
+
